@@ -505,8 +505,9 @@ def gradient_translation(H):
             attrib[n], vals[n] = numstr(H, n)
     mtok, M = _tok(H, "m")
     attrib["gradientTransform"] = mtok
-    stop = _el("stop", {"offset": "0"})
-    g = _el("linearGradient" if kind == "linear" else "radialGradient", attrib, [stop])
+    # stops in document order with offsets that are NOT ascending (legal: a renderer raises each to the running maximum, it never re-orders)
+    stop, stop2, stop3 = _el("stop", {"offset": "0.7", "stop-color": "red"}), _el("stop", {"offset": "0.4", "stop-color": "lime"}), _el("stop", {"offset": "1", "stop-color": "blue"})
+    g = _el("linearGradient" if kind == "linear" else "radialGradient", attrib, [stop, stop2, stop3])
     root = _el("svg", {"viewBox": "0 0 100 100"}, [_el("defs", {}, [g])])
     svg = SVG(root)
     _, e = H.catch(SVG._apply_gradient_translation, svg, g)
@@ -514,7 +515,7 @@ def gradient_translation(H):
     if e is not None:
         return
     a = g.attrib
-    H.prove(a.get("id") == "g" and a.get("gradientUnits") == "userSpaceOnUse" and a.get("spreadMethod") == "reflect" and list(g) == [stop], "translation.id_units_spread_and_stops_untouched", detail=str(dict(a)))
+    H.prove(a.get("id") == "g" and a.get("gradientUnits") == "userSpaceOnUse" and a.get("spreadMethod") == "reflect" and list(g) == [stop, stop2, stop3] and [dict(k.attrib) for k in g] == [{"offset": "0.7", "stop-color": "red"}, {"offset": "0.4", "stop-color": "lime"}, {"offset": "1", "stop-color": "blue"}], "translation.id_units_spread_and_stops_untouched", detail=str(dict(a)))
 
     def val(n):
         if n in a:
